@@ -110,6 +110,31 @@ EXTRA_TEXT = {
 }
 for k, t in EXTRA_TEXT.items():
     CHECKS[k]["text"] += t
+# round five
+SWEEP = " Dimension sweep: every depth 1..32 (deletion 1..31) x a batch-size set containing every size <= 9 and both sides of 16 (thorough: every size <= 34 and 63..65), with the defect placed in the LAST slot / the TOP path level (occupied last leaf, one past the end, wrong last item, corrupted top sibling, padding variants), on the gadget, and the whole Define at 7-11 diagonal dimensions up to (30,4)/(32,2)."
+EXTRA5 = {
+ "C01": SWEEP, "C02": SWEEP,
+ "C03": " Plus a concurrent whole-circuit phase: the circuit files are instrumented and two threads run the full Define of different shapes ((2,2) next to (1,1); insertion next to deletion) under the cooperative scheduler, every interleaving with <=1 preemption; each must decide its batch as it does alone.",
+ "C06": " Call sequences: every sequence of <=3 (4) FromBinaryBigEndian / ToReducedBigEndian calls on shared variables inside one circuit over several fields and widths; each call must give its own result and the caller's bit string must be left as passed.",
+ "C07": " Plus a concurrent-callers phase on the prover itself: two threads call ProveInsertion on one proving system with parameter sets that collide on the input hash (valid next to invalid), every interleaving with <=1 preemption of the instrumented prover package (files a changed tree adds included).",
+ "C08": " Helper-versus-circuit agreement: valid batches at depths {2,8,9,17,25,32} (thorough 12 depths) x positions whose 32-bit encodings have 1..4 significant bytes (palindromic and not), input hash from the library helper, whole Define in the engine must accept.",
+ "C10": " Histories on ONE Proof value: every sequence of <=4 (5) operations over {assign proof i, decode the JSON of proof i into the value, marshal} on three proofs; the value must always marshal as the proof it holds.",
+ "C11": " Write-fault enumeration: every Write call of the serialisation of a small system and the structural calls (first/last, every change of write size) of a real one fail once / as a short write / for ever, in both formats: the writer must report an error or have written the complete file; the CLI writing to a full device must not exit 0.",
+ "C12": " Longer in-process compile histories (deeper then shallower, larger batch then smaller, repeats) and an overlapping-builds phase: two BuildR1CS* calls of different dimensions / modes as two threads under the cooperative scheduler (build entry points and Define instrumented), every interleaving with <=1 preemption; each must give the digest it gives alone.",
+ "C13": " Request twins that collide with a valid request on everything but one field (same declared input hash with one sibling changed; same batch under another declared hash) are explored first; files a changed tree adds to the server / prover packages are instrumented too.",
+ "C14": " Goroutines of the code under check that outlive every harness thread are leaks, not deadlocks; net/http's RegisterOnShutdown is modelled; every (plan, scenario) gets a share of the budget; the end-to-end SIGINT runs hold 1, 2 and 3 prove requests in flight.",
+ "C15": " File lengths that are multiples of 2^9..2^25 (first/last two multiples of each, every multiple of 4 MiB and above; thorough every multiple of 1 MiB) through ReadSystemFromFile and the reader: a block-wise reader meets 'the file ends exactly at a block end' only there; the hang deadline is 60x the measured duration of reading the complete file, confirmed by a second run.",
+ "C16": " Decoding into a value that already holds another parameter set, for every ordered pair of the 13 ragged shapes, both modes.",
+ "C17": " In-process extraction histories: ExtractLean(30,4) after deeper / shallower / other-batch extractions and after circuit builds in the same process must still be the committed model.",
+ "C19": " Setup histories: `setup` onto an --output path that already holds the other mode's keys of the same dimensions, an interrupted earlier setup, (thorough) the same mode's keys or a bare header; after exit 0 the pipeline of that mode must work with the file.",
+ "C20": " Body-size classes just above 1, 8 and 32 MiB (thorough also 5, 17, 65 MiB and a GET with a body) as single requests and inside a history: whatever is answered must be counted.",
+}
+for k, t in EXTRA5.items():
+    CHECKS[k]["text"] += t
+for k in ["C03", "C07", "C12"]:
+    CHECKS[k]["technique"] += "; plus stateless DFS over the interleavings of two threads running the instrumented code (preemption bound 1) with a differential oracle"
+    CHECKS[k]["engine"] += "+schedmc"
+CHECKS["C11"]["technique"] += "; plus fault enumeration over the Write calls of the serialisation"
 for k in ["C01", "C02", "C04", "C05", "C06", "C08", "C10"]:
     CHECKS[k]["technique"] += "; plus stateless DFS over the interleavings of two threads running the instrumented code (preemption bound 1/2) with a differential oracle"
     CHECKS[k]["engine"] += "+schedmc"
@@ -146,7 +171,7 @@ def main():
             {"name": "r1csmc", "path": "harness/r1csmc", "serves_properties": ["C01", "C02", "C03", "C04", "C05", "C06"], "kind_free_text": "explicit-state search over a compiled R1CS: partial wire assignments, forced propagation, adversary choices for unforced/hint wires, independent constraint evaluator"},
             {"name": "groth16-real", "path": "harness/checks", "serves_properties": ["C07", "C10", "C11", "C15"], "kind_free_text": "bounded-exhaustive menus and operation chains on real Groth16 setups, proofs and key files"},
             {"name": "maporder", "path": "harness/maporder", "serves_properties": ["C12", "C17"], "kind_free_text": "go build -overlay of runtime/map.go making the random start of every map iteration an enumerable input; child processes per seed"},
-            {"name": "schedmc", "path": "harness/verifrt", "serves_properties": ["C14", "C13", "C09", "C20", "C01", "C02", "C04", "C05", "C06", "C08", "C10"], "kind_free_text": "AST instrumenter + cooperative scheduler + stateless DFS explorer (preemption bounding, state-key pruning) + model of net/http.Server, run on the repository's own server code via go build -overlay"},
+            {"name": "schedmc", "path": "harness/verifrt", "serves_properties": ["C14", "C13", "C09", "C20", "C01", "C02", "C03", "C04", "C05", "C06", "C07", "C08", "C10", "C12"], "kind_free_text": "AST instrumenter + cooperative scheduler + stateless DFS explorer (preemption bounding, state-key pruning) + model of net/http.Server, run on the repository's own server code via go build -overlay"},
             {"name": "e2e", "path": "harness/checks/cli.go", "serves_properties": ["C19", "C08", "C11", "C12", "C15", "C17"], "kind_free_text": "drivers for the real binary built from the working tree (files, pipes, exit status)"},
             {"name": "enginemc", "path": "harness/gad", "serves_properties": ["C01", "C02", "C03", "C04", "C05", "C06"], "kind_free_text": "bounded-exhaustive evaluation of repo gadgets / full Define in gnark's test engine over small whole fields and BN254 alphabets"},
         ],
